@@ -90,6 +90,16 @@ def lookup_method(eng, st, recv: V, attr):
         tags.append('setint')
     elif isinstance(k, KRef) and k.cls:
         tags += eng.class_mro(k.cls)
+    elif isinstance(k, KRef) and k.cls is None:
+        # statically unknown class (Tensor | Future | None fields): a method name that exists on exactly
+        # one modelled library class is dispatched there, with the dynamic class as an obligation
+        cands = sorted({t for (t, a) in METHODS if a == attr and t in LIB_CLASSES})
+        roots = [c for c in cands if not any(c != d and eng.is_subclass(c, d) for d in cands)]
+        if len(roots) == 1:
+            eng.require(st, eng.isinstance_term(st, recv, roots[0]), 'AttributeError',
+                        f'.{attr} needs a {roots[0]}')
+            recv = V(KRef(roots[0]), recv.term)
+            tags += eng.class_mro(roots[0])
     elif k == KDyn:
         tags.append('dyn')
     if recv.meta is not None and hasattr(recv.meta, 'tag'):
